@@ -62,6 +62,10 @@ def check(ix, rep):
     on = {m.kind: m for m in M_.standard_monitors(ix)}['discrete-online']
     nw, _w = windowrule.check_online(ix, rep, on, which=('R-WINDOW',))
     rep.floor('bounded online operations whose window was derived', nw, 4)
+    # the rewrite emits the same delayed sub-formula several times (`once[k,k](phi)` under one name): the online monitor's once-per-update memo decides
+    # whether its shared operator is stepped once
+    from sa.rules import step as _step
+    _step.check_step(ix, rep, on)
     nhd = pastify.check_horizon_dimension(ix, rep, hcls)
     rep.floor('next handlers checked for the unit of their look-ahead', nhd, 2)
     nrt = pastify.check_roundtrip(ix, rep, pcls)
@@ -109,9 +113,58 @@ def check(ix, rep):
     ok = len(loops) >= 2 and 'ast.specs' in ast.unparse(loops[0].iter) and 'ast.specs' in ast.unparse(loops[1].iter) \
         and any(isinstance(s, ast.Assign) and ast.unparse(s.targets[0]) == 'ast.specs' for s in pf.node.body)
     if ok:
-        rep.ok('R-DELAY', pf.module.rel, pf.qual, 'pastify-driver', 'horizons first, then every spec rewritten with its own horizon, in order', pf.node.lineno)
+        rep.ok('R-DELAY', pf.module.rel, pf.qual, 'pastify-driver', 'horizons first, then every spec rewritten, in order', pf.node.lineno)
     else:
         rep.fail('R-DELAY', pf.module.rel, pf.qual, 'pastify-driver', 'pastify() does not compute the horizons of all specs and rewrite them in order', pf.node.lineno)
+    # ... and each with its *own* look-ahead: the delay of assertion s is h(s), whatever else is in the forest (a sub-specification with a
+    # longer look-ahead that the output does not use must not delay the output)
+    hname = None
+    for st in ast.walk(pf.node):
+        if isinstance(st, ast.Assign) and isinstance(st.value, ast.Call) and isinstance(st.targets[0], ast.Name):
+            ent = ix.resolve_expr(pf.module, st.value.func)
+            if ent is hcls:
+                hname = st.targets[0].id
+    if hname is None:
+        raise AnalysisError('%s: the horizon visitor is not instantiated in pastify()' % pf.where)
+
+    def _is_own_horizon(e, specvar, loop, depth=0):
+        # h.visit(specvar, ..)
+        if isinstance(e, ast.Call) and isinstance(e.func, ast.Attribute) and e.func.attr == 'visit' and isinstance(e.func.value, ast.Name) and e.func.value.id == hname \
+                and e.args and isinstance(e.args[0], ast.Name) and e.args[0].id == specvar:
+            return True
+        if depth > 3:
+            return False
+        # a local of the same loop body bound once
+        if isinstance(e, ast.Name):
+            ds = [x for x in ast.walk(loop) if isinstance(x, ast.Assign) and len(x.targets) == 1 and isinstance(x.targets[0], ast.Name) and x.targets[0].id == e.id]
+            if len(ds) == 1:
+                return _is_own_horizon(ds[0].value, specvar, loop, depth + 1)
+            return False
+        # D[specvar] with D filled per spec in an earlier loop over the specs
+        if isinstance(e, ast.Subscript) and isinstance(e.value, ast.Name) and isinstance(e.slice, ast.Name) and e.slice.id == specvar:
+            for lp in loops:
+                if lp is loop or not isinstance(lp.target, ast.Name):
+                    continue
+                for x in ast.walk(lp):
+                    if isinstance(x, ast.Assign) and len(x.targets) == 1 and isinstance(x.targets[0], ast.Subscript) and isinstance(x.targets[0].value, ast.Name) \
+                            and x.targets[0].value.id == e.value.id and isinstance(x.targets[0].slice, ast.Name) and x.targets[0].slice.id == lp.target.id:
+                        if _is_own_horizon(x.value, lp.target.id, lp, depth + 1):
+                            return True
+        return False
+    nown = 0
+    for lp in loops:
+        if not isinstance(lp.target, ast.Name):
+            continue
+        for c in ast.walk(lp):
+            if isinstance(c, ast.Call) and D._self_call(c) == 'visit' and len(c.args) >= 2 and isinstance(c.args[0], ast.Name) and c.args[0].id == lp.target.id:
+                nown += 1
+                if _is_own_horizon(c.args[1], lp.target.id, lp):
+                    rep.ok('R-DELAY', pf.module.rel, pf.qual, 'pastify-driver:own-horizon', 'every assertion is rewritten with the look-ahead computed for that assertion', c.lineno)
+                else:
+                    rep.fail('R-DELAY', pf.module.rel, pf.qual, 'pastify-driver:own-horizon', 'the look-ahead handed to the rewrite of an assertion (`%s`) is not the horizon computed for '
+                             'that assertion: an assertion is delayed by something other than its own look-ahead -- e.g. a sub-specification with a longer look-ahead that the '
+                             'output does not use delays the output too, and update i no longer returns the sample i - H(out)' % ast.unparse(c.args[1])[:60], c.lineno)
+    rep.floor('rewrite calls of the pastify driver', nown, 1)
     # the rewritten tree contains no future operator: node classes the pastifier can build
     pb = M.pastifier_builds(ix)
     fut = sorted(set(pb) & {'Eventually', 'Always', 'Until', 'TimedEventually', 'TimedAlways', 'TimedUntil', 'Next', 'StrongNext'})
